@@ -125,6 +125,12 @@ func (d *DiskKV) Start() {
 			}
 		case m := <-d.queue:
 			var mutError error
+			if mutError = d.checkMutation(m.mut); mutError != nil {
+				// known to be rejected: it must never reach the log, otherwise a crash
+				// between append and rollback leaves an entry that replay cannot apply
+				m.err <- mutError
+				continue
+			}
 			if logError := d.appendLog(m.mut); logError == nil {
 				mutError = d.handleMutation(m.mut)
 				if mutError != nil {
